@@ -51,6 +51,13 @@ func posMod(raw, n int) int {
 	return r
 }
 
+func compareLen(s stackage.Stack, m *ListModel) *Violation {
+	if s.Len() != m.Len() {
+		return violf("drain/len", "during a drain Len()=%d, model %d", s.Len(), m.Len())
+	}
+	return nil
+}
+
 // idxOpts tells compareContent which index options the stack under test has (C01 sets it per case).
 var idxOpts struct{ neg, fwd bool }
 
@@ -198,11 +205,27 @@ func runC01(c C01Case) (st Stats, err error) {
 						st.Class("nil-push")
 					}
 				}
+				if len(op.Nils) >= 9 {
+					st.Class("bulk-push")
+				}
 				m.Push(vals...)
 				s.Push(vals...)
 				if m.Full() {
 					st.Class("cap-reached")
 				}
+			case "popn":
+				// drain op.A elements one by one, comparing each
+				for k := 0; k < op.A && v == nil; k++ {
+					want, existed := m.Pop()
+					got, ok := s.Pop()
+					if got != want || ok != (existed && want != nil) {
+						v = violf("pop/value", "Pop #%d of a drain returned (%#v,%v), model (%#v,%v)", k, got, ok, want, existed && want != nil)
+					}
+					if vv := compareLen(s, m); vv != nil && v == nil {
+						v = vv
+					}
+				}
+				st.Class("drain")
 			case "pop":
 				want, existed := m.Pop()
 				got, ok := s.Pop()
@@ -339,6 +362,8 @@ func runC01(c C01Case) (st Stats, err error) {
 		switch op.Op {
 		case "push", "pop", "insert", "remove", "replace", "swap", "reverse", "reset":
 			kinds[op.Op] = true
+		case "popn":
+			kinds["pop"] = true
 		}
 		switch op.Op {
 		case "insert", "remove", "replace", "swap":
@@ -366,13 +391,18 @@ func genC01(t *rapid.T, tier Tier) C01Case {
 	if rapid.Bool().Draw(t, "hascap") {
 		c.Cap = rapid.IntRange(1, 6).Draw(t, "cap")
 	}
-	ops := []string{"push", "push", "push", "pop", "insert", "insert", "remove", "replace", "swap", "reverse", "reset", "fifo"}
+	ops := []string{"push", "push", "push", "pop", "insert", "insert", "remove", "replace", "swap", "reverse", "reset", "fifo", "popn"}
 	n := rapid.IntRange(1, maxOps).Draw(t, "nops")
 	for i := 0; i < n; i++ {
 		o := C01Op{Op: rapid.SampledFrom(ops).Draw(t, "op")}
 		switch o.Op {
+		case "popn":
+			o.A = rapid.IntRange(2, 30).Draw(t, "drain")
 		case "push":
 			k := rapid.IntRange(0, 4).Draw(t, "batch")
+			if rapid.IntRange(0, 7).Draw(t, "bulk?") == 0 {
+				k = rapid.IntRange(9, 70).Draw(t, "bulk") // past the allocator's growth steps
+			}
 			for j := 0; j < k; j++ {
 				o.Nils = append(o.Nils, rapid.IntRange(0, 99).Draw(t, "nil?") < 15)
 			}
@@ -440,7 +470,7 @@ func enumC01(tier Tier, yield func(C01Case)) {
 func init() {
 	Register(Def[C01Case]{
 		ID: "C01",
-		Rule: "rapid-generated operation programs (1..40/80 ops from push-batch/pop/insert/remove/replace/swap/reverse/reset/setFIFO, raw indices mapped onto existing positions, " +
+		Rule: "rapid-generated operation programs (1..40/80 ops from push-batch (occasionally 9..70 values)/pop/drain/insert/remove/replace/swap/reverse/reset/setFIFO, raw indices mapped onto existing positions, " +
 			"~15% nil pushes) x kind x FIFO x capacity x index options, compared step by step against an ordered-list model (Len, IsEmpty, Index of every position, Front, Back, return values, Kind/Cap/IsFIFO); " +
 			"plus exhaustive enumeration of all programs up to length 3 (thorough: 4) over a 13-op alphabet on 40 configurations. " +
 			"non-trivial = program has >=2 different mutator kinds and a positional op (insert/remove/replace/swap) executed on length >=2; distinct = distinct case JSON",
@@ -450,7 +480,7 @@ func init() {
 		EnumNote: "all programs of length <=3 (quick) / <=4 (thorough) over 13 op shapes x 5 kinds x LIFO/FIFO x cap{none,3} x initial length{0,3}",
 		Floors: map[string]float64{
 			"nil-push": 0.01, "reset-with-nil": 0.01, "insert@0": 0.01, "insert@mid": 0.01, "insert@>=len": 0.01,
-			"cap-reached": 0.01, "fifo-pop-then-positional": 0.01, "reverse-odd": 0.01, "reverse-even": 0.01, "remove-via-negative-index": 0.01, "remove-via-forward-index": 0.003,
+			"cap-reached": 0.01, "fifo-pop-then-positional": 0.01, "reverse-odd": 0.01, "reverse-even": 0.01, "remove-via-negative-index": 0.01, "remove-via-forward-index": 0.003, "bulk-push": 0.1, "drain": 0.1,
 		},
 		Assumptions: []string{"element values are distinct tagged ints/strings; composite values are covered by C05/C08",
 			"Front/Back/Remove on a nil slot are compared leniently (docs silent), see DESIGN.md C01"},
